@@ -1171,6 +1171,52 @@ pub fn announce(seed: u64) -> Plan {
     p
 }
 
+/// Stalled reader: an observed peer stops draining what the client writes while many pieces
+/// complete on other connections (the task's broadcast queue holds 32 commands).
+pub fn stall(seed: u64) -> Plan {
+    let mut r = Rng64::sub(seed, "stall");
+    let piece_len = r.range(32, 400);
+    let n_p = r.range(20, 70);
+    let g = simple_geometry(piece_len, n_p * piece_len - r.range(0, piece_len - 1));
+    let n = g.pieces();
+    let mut p = base_plan("stall", seed, g);
+    for j in 0..r.range(1, 3) as usize {
+        let mut peer = base_peer(j, n);
+        peer.max_accepts = 5;
+        peer.unchoke = Unchoke::OnInterested(r.range(1, 50));
+        peer.answer.delay_min = *r.pick(&[5u64, 20, 60]);
+        peer.answer.delay_max = peer.answer.delay_min + r.range(0, 40);
+        // stays around: interested in us
+        peer.script.push(step(When::At(0), Act::Send(Msg::Interested)));
+        p.peers.push(peer);
+    }
+    let k0 = p.peers.len();
+    for j in 0..r.range(1, 3) as usize {
+        let mut peer = base_peer(k0 + j, n);
+        peer.essential = false;
+        peer.has = vec![false; n];
+        peer.unchoke = Unchoke::At(r.range(1, 30));
+        peer.keepalive = Some(60_000);
+        if r.chance(1, 2) {
+            peer.listed = false;
+            peer.dial_in = vec![r.range(0, 100)];
+        }
+        peer.script.push(step(When::At(0), Act::Send(Msg::Interested)));
+        let t = r.range(20, 1500);
+        peer.script.push(step(When::At(t), Act::Stall(r.range(200, 8000))));
+        if r.chance(1, 3) {
+            peer.script.push(step(When::At(t + r.range(9000, 12_000)), Act::Stall(r.range(200, 3000))));
+        }
+        p.peers.push(peer);
+    }
+    let mut names: Vec<String> = p.peers.iter().filter(|x| x.listed).map(|x| x.name.clone()).collect();
+    names.reverse();
+    p.tracker.steps.push((1, TrackerStep::Good { peers: names, malformed: 0, wrong_id_for: vec![] }));
+    p.deadline_ms = 60_000;
+    p.linger_ms = 12_000;
+    p
+}
+
 // ---------------------------------------------------------------------------------------------
 // manager-level profiles
 
@@ -1287,6 +1333,10 @@ pub fn choking(seed: u64) -> Plan {
                 t += r.range(100, 15_000);
                 peer.script.push(step(When::At(t), Act::Send(Msg::Interested)));
             }
+        }
+        // a few leechers stop reading for a while (the client's writes to them block)
+        if !seeder && r.chance(1, 6) {
+            peer.script.push(step(When::At(r.range(5_000, 40_000)), Act::Stall(r.range(3_000, 45_000))));
         }
         let period = if tied { 1000 } else { *r.pick(&[300u64, 700, 1500, 4000]) };
         for q in 0..r.range(0, 40) {
@@ -1493,6 +1543,7 @@ pub fn generate(profile: &str, seed: u64) -> Option<Plan> {
         "leechers" => leechers(seed),
         "handshakes" => handshakes(seed),
         "announce" => announce(seed),
+        "stall" => stall(seed),
         "bookkeeping" => bookkeeping(seed),
         "choking" => choking(seed),
         "tracker-faults" => tracker_faults(seed),
